@@ -237,6 +237,13 @@ Theorem C19_unc_tokens q n ps rest :
        ∧ map core_of out = expected_cores q n.
 Proof. exact (unc_tokens_spec q n ps rest). Qed.
 
+(** the well-formedness guard is met by every short instance [v(u)] with a decimal literal v and
+    a digit-only u (and any digit exponent) *)
+Theorem C19_unc_tokens_short_guard v u e :
+  lit_ok false v = true → nonempty_digits u = true → exp_ok e = true →
+  inst_ok as_found (NInst v (TyNumber, u) e SShort) = true.
+Proof. exact (inst_ok_short_as_found v u e). Qed.
+
 (** the texts [v ++ e], [u ++ e] denote v·10^e and u·10^e: for every decimal literal
     (digits.digits, or digits) and every exponent style, [parse_number] — the reading
     [ParserHelper.eval_token] gives a NUMBER token — of the rewritten text is the value of the
